@@ -1,6 +1,7 @@
 package loadbalancer
 
 import (
+	"sync"
 	"time"
 
 	"github.com/0xReLogic/Helios/internal/config"
@@ -217,5 +218,30 @@ func VerifC05WRRHistory(h int, T int) {
 			d := count[i]*we - t*bs[i].Weight
 			verifrt.Assert(-2*maxTotal <= d && d <= 2*maxTotal, "weighted_round_robin stays within 2*W_total/W_eligible of the proportional share after any membership/health history")
 		}
+	}
+}
+
+// VerifC05RRConcurrent: n*k picks made by `threads` concurrent pickers hit
+// every backend exactly k times, however they interleave (the atomic ticket).
+func VerifC05RRConcurrent(n int, threads int, perThread int) {
+	lb := verifBareLB(0)
+	bs := verifPool(lb, 0, n, false)
+	r := verifRequest("10.1.2.3:4711")
+	var mu sync.Mutex
+	count := make([]int, n)
+	for t := 0; t < threads; t++ {
+		verifrt.Go(func() {
+			for i := 0; i < perThread; i++ {
+				b := lb.NextBackend(r)
+				mu.Lock()
+				count[verifIndexOf(bs, b)]++
+				mu.Unlock()
+			}
+		})
+	}
+	verifrt.WaitAll()
+	total := threads * perThread
+	for i := range count {
+		verifrt.Assert(count[i]*n == total, "round_robin: concurrent pickers give every backend exactly k of n*k requests")
 	}
 }
